@@ -925,6 +925,16 @@ pub fn synthetic_project(seed: u64) -> Project {
             extra_keys.push("\u{540d}\u{524d}: \u{540d}\u{524d}".into());
         }
     }
+    if rng.chance(1, 8) {
+        // a type query whose result holds a tuple with a rest element that is a union of objects, one of them
+        // recursive through a key that sorts before the discriminator (generated names reached only through
+        // the rest element)
+        extra_decls.push("export type TDir = { type: \"dir\"; name: string; parent: TDir | TRoot };\nexport type TRoot = { type: \"root\"; parent: null };\nexport type TTrail = [string, ...(TDir | TRoot)[]];\nexport type TrailOnly = Exclude<TTrail | string, string>;\nexport type TrailRest = Exclude<[number, ...TTrail[]] | null, null>;".into());
+        extra_keys.push("TrailOnly: TrailOnly".into());
+        if rng.chance(1, 2) {
+            extra_keys.push("TrailRest: TrailRest".into());
+        }
+    }
     let mut pet_files = false;
     if rng.chance(1, 8) {
         // two modules whose doc comments sit at the same byte offsets (same layout, same lengths): whatever keys
